@@ -2,6 +2,7 @@ import FluentVerif.Driver.Parse
 import FluentVerif.Proto.Equal
 import FluentVerif.Proto.EventTime
 import FluentVerif.Driver.Codec
+import FluentVerif.Driver.Tcp
 /-! `fvdriver`: reads harness lines on stdin, evaluates the *same definitions the theorems are
 about* on each input, and prints, per line, whether the model agrees with what the real code did
 (`CORR`) and whether the property predicate holds of what the real code did (`PROP`). -/
@@ -78,6 +79,13 @@ def dispatch (op : String) (args obs : List String) : Outcome :=
   | "ETD" => opETD args obs
   | "HRESET" | "PRIME" | "PK" | "CP" | "CB" | "PB" | "MP" | "UP" | "MM" | "GCH" =>
     match opHIST op args obs with
+    | some d =>
+      { corr := match d.corr with | none => .ok | some w => .bad w,
+        prop := if d.fails.isEmpty then .ok else .bad (" ; ".intercalate d.fails),
+        branch := d.branch }
+    | none => { corr := .bad "bad-line" }
+  | "SEQ" =>
+    match opSEQ args obs with
     | some d =>
       { corr := match d.corr with | none => .ok | some w => .bad w,
         prop := if d.fails.isEmpty then .ok else .bad (" ; ".intercalate d.fails),
